@@ -6,21 +6,18 @@ import (
 
 	"cuelang.org/go/cue/cuecontext"
 	"cuelang.org/go/cue/format"
-	"cuelang.org/go/cue/load"
-	"cuelang.org/go/tools/trim"
+	cuejson "cuelang.org/go/encoding/json"
+	"cuelang.org/go/encoding/jsonschema"
 )
 
 func main() {
 	ctx := cuecontext.New()
-	src, _ := os.ReadFile(os.Args[1])
-	cfg := &load.Config{Dir: "/virt", Overlay: map[string]load.Source{"/virt/x.cue": load.FromBytes(src)}}
-	insts := load.Instances([]string{"x.cue"}, cfg)
-	inst := insts[0]
-	fmt.Println("load err", inst.Err)
-	v := ctx.BuildInstance(inst)
-	fmt.Println("err", v.Err())
-	err := trim.Files(inst.Files, v, &trim.Config{})
-	fmt.Println("trim err", err)
-	b, _ := format.Node(inst.Files[0])
+	e, _ := cuejson.Extract("schema.json", []byte(os.Args[1]))
+	f, err := jsonschema.Extract(ctx.BuildExpr(e), &jsonschema.Config{StrictFeatures: true, DefaultVersion: jsonschema.VersionDraft2020_12})
+	if err != nil {
+		fmt.Println("extract err", err)
+		return
+	}
+	b, _ := format.Node(f, format.Simplify())
 	fmt.Println(string(b))
 }
